@@ -112,7 +112,11 @@ func runBackend(kind string, bs int, c cfg, mm *gostatsd.MetricMap) string {
 	var cerr string
 	o := vsched.RunOnce(func() {
 		ctx, _ := fx.NewClock(context.Background())
-		b, err := bk.New(kind, bk.Opts{BatchSize: bs, Disabled: d, Compress: bs == 1})
+		opts := bk.Opts{BatchSize: bs, Disabled: d, Compress: bs == 1}
+		if strings.HasPrefix(kind, "otlp") && bs == 1 {
+			opts.ResourceKeys = []string{"gsd_histogram", "host", "gsd_histogram"} // resource keys, one of them listed twice
+		}
+		b, err := bk.New(kind, opts)
 		if err != nil {
 			cerr = err.Error()
 			return
